@@ -140,10 +140,14 @@ func RunCLIArgs(w *simfs.World, flagArgs []string, stdin string) (CLIResult, err
 	})
 	w.Clock++
 	runTick := w.Clock
-	for _, c := range changed {
+	for i, c := range changed {
 		tick := runTick
 		if w.ClockMode == simfs.TickPerWrite {
-			w.Clock++
+			// files that carry the same native time stamp (the kernel's clock for file times is coarse) keep
+			// that tie: giving them distinct ticks in path order would invent an order the directory does not have
+			if i == 0 || !c.mt.Equal(changed[i-1].mt) {
+				w.Clock++
+			}
 			tick = w.Clock
 		}
 		w.PutAt(c.p, c.d, tick)
